@@ -215,8 +215,16 @@ def run_find_peaks(d):
     if any(lst[i + 1][0] < max(x[1] for x in lst[: i + 1]) for i in range(len(lst) - 1)):
         classes.add("overlapping_hits")
     # ordered and disjoint (last: everything else has been compared by now)
-    tags = ["dur-split-closer-than-extensions"] if f17_shape(lst, bounds, le, re) else []
     t, e = got["time"].astype(np.int64), endtime(got)
+    # an overlapping pair is the recorded finding F17 only when the boundary between exactly these two peaks is a
+    # duration-forced split between hits closer than left + right extension
+    bmap = {i: (kind, cend) for kind, i, cend in bounds}
+    over = [k for k in range(len(got) - 1) if t[k + 1] < e[k]]
+    excused = bool(over) and all(
+        bmap.get(kept[k + 1]["members"][0], ("", 0))[0] in ("dur", "band")
+        and kept[k]["members"][-1] + 1 == kept[k + 1]["members"][0]
+        and lst[kept[k + 1]["members"][0]][0] - bmap[kept[k + 1]["members"][0]][1] < le + re for k in over)
+    tags = ["dur-split-closer-than-extensions"] if excused else []
     check(np.all(t[1:] >= t[:-1]), "find_peaks.not_time_ordered", (d, t.tolist()), tags)
     check(np.all(t[1:] >= e[:-1]), "find_peaks.peaks_overlap",
           (d, "peaks [time, endtime)", list(zip(t.tolist(), e.tolist()))), tags)
